@@ -193,5 +193,61 @@ def rule_g5(repo):
     return res
 
 
+def rule_g6(repo):
+    """The stale-operand rule of C06.Z6 for this property's modules."""
+    from .. import persist
+    res = RuleResult('C17.G6', 'after the smaller class was chosen by swapping, the expressions the swapped names were first bound to are not used again', floor=20)
+    for rel in (CONGC, 'util/unionfind.py'):
+        m = repo.module(rel)
+        for f in m.all_funcs:
+            cfg = cfg_of(f.node)
+            bad = persist.stale_after_swap(f.node, cfg)
+            res.add('%s :: %s :: no-stale-operand' % (rel, f.qualname), not bad,
+                    'no use of a swapped operand through its old expression' if not bad else
+                    '`%s` (line %d) is used after `%s` (line %d), where it no longer is what `%s` stands for' % (
+                        bad[0][2], bad[0][1].lineno, src(bad[0][0].ast, 40), bad[0][0].lineno, bad[0][3]), f.loc, nontrivial=bool(bad))
+    return res
+
+
+def rule_g7(repo):
+    """Adding the edge s1 -> s2 re-roots the tree of s1: every ancestor on the old path to the root is hung
+    under its former *child*.  In the loop over that path, the new parent stored for an ancestor must change
+    from round to round (the previous node of the path); a name set once before the loop hangs every
+    ancestor under the same node, and explanations come out as paths through unrelated equations."""
+    res = RuleResult('C17.G7', 're-rooting a proof tree hangs each ancestor under the previous node of the path', floor=1)
+    f = repo.func(CONGC, 'CongClosure._add_edge_proof_forest')
+    loops = [n for n in ast.walk(f.node) if isinstance(n, ast.For)]
+    need(loops, '_add_edge_proof_forest: loop over the path to the root not found')
+    lp = loops[0]
+    loop_vars = {x.id for x in ast.walk(lp.target) if isinstance(x, ast.Name)}
+    assigned_in_loop = {t.id for st in lp.body for n in ast.walk(st) if isinstance(n, ast.Assign) for tt in n.targets
+                        for t in ast.walk(tt) if isinstance(t, ast.Name)}
+    stores = [n for st in lp.body for n in ast.walk(st) if isinstance(n, ast.Assign) and any(
+        isinstance(t, ast.Subscript) and path_of(t.value) == 'self.proof_forest' for t in n.targets)]
+    need(stores, '_add_edge_proof_forest: no store into the proof forest inside the loop')
+    for s_ in stores:
+        v = s_.value
+        parent = v.elts[0] if isinstance(v, ast.Tuple) and v.elts else None
+        names = {x.id for x in ast.walk(parent) if isinstance(x, ast.Name)} if parent is not None else set()
+        # varies with the loop: mentions the loop variable, or a name that is (re)assigned inside the loop
+        def depends(nm, seen=()):
+            if nm in loop_vars:
+                return True
+            if nm in seen:
+                return False
+            for st in lp.body:
+                for n in ast.walk(st):
+                    if isinstance(n, ast.Assign) and any(isinstance(t, ast.Name) and t.id == nm for tt in n.targets for t in ast.walk(tt)):
+                        if any(depends(x.id, seen + (nm,)) for x in ast.walk(n.value) if isinstance(x, ast.Name)) or True:
+                            return True
+            return False
+        ok = bool(names) and any(depends(nm) for nm in names)
+        res.add('%s :: CongClosure._add_edge_proof_forest :: new-parent(%s)' % (CONGC, src(parent, 30) if parent is not None else '?'), ok,
+                'the new parent is taken from the path, round by round' if ok else
+                'every ancestor is hung under `%s`, which does not change inside the loop: after a = b, c = a, d = e, d = f, c = d the explanation of '
+                'b = c is [a = b]' % (src(parent, 30) if parent is not None else '?'), '%s:%d' % (CONGC, s_.lineno))
+    return res
+
+
 def rules(repo):
-    return [rule_g1(repo), rule_g2(repo), rule_g3(repo), rule_g4(repo), rule_g5(repo)]
+    return [rule_g1(repo), rule_g2(repo), rule_g3(repo), rule_g4(repo), rule_g5(repo), rule_g6(repo), rule_g7(repo)]
